@@ -418,8 +418,90 @@ fn late_removal_probe(report: &mut Report) {
     }
 }
 
+
+/// Directed (real code + the property's oracle): the collector runs with `--break-lock` — with and without a stale
+/// lock lying in the archive — while a backup of a source that needs the garbage block again starts.  Schedules
+/// "gc j operations, backup k operations, gc to the end, backup to the end" for every j up to past its lock write and
+/// every k up to past the backup's block listing (and the mirror image, backup first).  Whatever the interleaving:
+/// every version that is complete afterwards decodes and restores.
+fn break_lock_race(seed: u64, report: &mut Report) {
+    let case_seed = seed.wrapping_mul(1_000_003) ^ 0xB4EA;
+    let ca = content_with_prefix("a", case_seed, None);
+    let prefix = blake_hex(&ca)[..3].to_string();
+    let cb = content_with_prefix("b", case_seed, Some(&prefix));
+    let cg = content_with_prefix("garbage", case_seed, Some(&prefix));
+    let t0 = 1_600_000_000_000_000_000i64;
+    let t1 = tree_of(&[("a", &ca, t0 + 1), ("b", &cb, t0 + 2)]);
+    let t3 = tree_of(&[("a", &ca, t0 + 1), ("b", &cb, t0 + 2), ("n", &cg, t0 + 9)]);
+    let pl = BackupParamsLite { hunk: HUNK, block: BLOCK, cap: CAP };
+    let steps = vec![Step::SetTree(t1), Step::Backup(pl), Step::SetTree(t3)];
+    for stale_lock in [false, true] {
+        let case_id = json!({"directed": "gc --break-lock racing a backup", "stale_lock_present": stale_lock, "garbage_block_content": String::from_utf8_lossy(&cg)});
+        let mut sc = build_scenario(&steps, report, &case_id, "gc-race-prefix");
+        let _ = plant_block(&sc.run.arch, &cg);
+        if stale_lock {
+            std::fs::write(sc.run.arch.join("GC_LOCK"), b"{}\n").unwrap();
+        }
+        sc.pre_state = abstract_archive(&sc.run.arch).0;
+        let a = ActorSpec::Backup { params: BackupParamsOwned { hunk: HUNK, block: BLOCK, cap: CAP }, source: sc.run.src.clone(), slot: 0 };
+        let b = ActorSpec::DeleteBreakLock { bands: vec![] };
+        // solo runs for the lengths
+        let arch = fresh_copy(&sc, "blsolo");
+        let (sa, _) = run_schedule(&arch, &a, &b, &[]);
+        remove_copy(&arch);
+        let arch = fresh_copy(&sc, "blsolo");
+        let (_, sb) = run_schedule(&arch, &a, &b, &vec![true; 400]);
+        remove_copy(&arch);
+        let a_listed = sa.trace.iter().rposition(|l| { let p = parts(l); p[1] == "list" && p[2].starts_with("d") }).unwrap_or(sa.trace.len().saturating_sub(1));
+        let b_lock = sb.trace.iter().position(|l| { let p = parts(l); p[1] == "write" && p[2] == "GC_LOCK" }).unwrap_or(4);
+        let mut schedules: Vec<Vec<bool>> = Vec::new();
+        for j in 0..=(b_lock + 3) {
+            for k in 0..=(a_listed + 2) {
+                let mut s = vec![true; j];
+                s.extend(vec![false; k]);
+                s.extend(vec![true; 400]);
+                schedules.push(s);
+            }
+        }
+        for i in 0..=(a_listed + 2) {
+            for j in 0..=(b_lock + 3) {
+                let mut s = vec![false; i];
+                s.extend(vec![true; j]);
+                schedules.push(s); // then A to the end, then B
+            }
+        }
+        for sched in &schedules {
+            let arch = fresh_copy(&sc, "blrace");
+            let (ra, rb) = run_schedule(&arch, &a, &b, sched);
+            let (post, _) = abstract_archive(&arch);
+            let post_map = state_map(&post);
+            let case = json!({"scenario": case_id, "schedule": bits(&sched[..sched.len().min(80)]), "actors": ["A = backup of the new source", "B = gc with break_lock"]});
+            report.case(&format!("blrace/{stale_lock}/{}", bits(&sched[..sched.len().min(80)])), true);
+            report.hit("gc-break-lock-race-schedule");
+            report.hit(&format!("break-lock-outcome:backup-{}:gc-{}", if ra.result.starts_with("result ok") { "ok" } else { "refused" }, if rb.result.starts_with("result ok") { "ok" } else { "refused" }));
+            if ra.result.starts_with("result panic") || rb.result.starts_with("result panic") {
+                report.oracle_fail("gc-race:panic", case.clone(), "an actor crashed", json!({"a": trunc(&ra.result), "b": trunc(&rb.result)}));
+            }
+            for cband in complete_bands(&post) {
+                let mut problems: Vec<String> = Vec::new();
+                for (_, e) in band_entries(&post_map, cband) {
+                    if let Err(why) = entry_content(&post_map, &e) {
+                        problems.push(format!("{}: {}", e.apath, why));
+                    }
+                }
+                let (rr, _) = restore_observe(&arch, sc.run.work.path(), &Sel::Band(cband), "blrace");
+                if !problems.is_empty() || !rr.result.starts_with("result ok") || !rr.events.is_empty() {
+                    report.oracle_fail("gc-race:dangling-with-break-lock", case.clone(), "a version that is complete after a gc --break-lock raced a backup refers to a block the collector removed", json!({"band": band_name(cband), "references": problems.iter().take(3).collect::<Vec<_>>(), "restore": trunc(&rr.result), "backup_result": trunc(&ra.result), "gc_result": trunc(&rb.result)}));
+                }
+            }
+            remove_copy(&arch);
+        }
+    }
+}
+
 pub fn run(tier: &str, seed: u64, report: &mut Report) {
     late_removal_probe(report);
+    break_lock_race(seed, report);
     let thorough = tier == "thorough";
     let started = Instant::now();
     let budget_s = if thorough { 270 } else { 50 };
